@@ -128,6 +128,16 @@ func (e *Env) handouts() map[*kit.Inst][]handout {
 				m[in] = append(m[in], handout{Where: fmt.Sprintf("argument of r%d#%d", c.Reg, c.Serial), Scope: e.ScopeOfCall(c), Call: c})
 			})
 		}
+		for _, a := range c.Nested {
+			// what the constructor looked up itself through its injected Scope / Provider
+			// (scoped instances left out: the scope such a lookup belongs to is not recorded)
+			argInsts(a, func(in *kit.Inst) {
+				if r := e.reg(in.Reg); r == nil || r.Life == "scoped" {
+					return
+				}
+				m[in] = append(m[in], handout{Where: fmt.Sprintf("lookup made by r%d#%d", c.Reg, c.Serial), Scope: e.ScopeOfCall(c), Call: c})
+			})
+		}
 	}
 	return m
 }
